@@ -394,7 +394,7 @@ impl Sim {
             let mut ok = json!("none");
             for ev in verif::take(tid) {
                 if let verif::Event::Outcome { ok: o } = ev {
-                    ok = json!(o);
+                    ok = json!(if o { "true" } else { "false" });
                 }
             }
             if joined.is_err() {
